@@ -147,3 +147,30 @@ Definition run_currency (chunks : list (list (nat * (nat * nat)))) (wrongs : lis
   | Ok ls => Some (map (fun l => (lstart l, lend l)) ls)
   | Panic _ => None
   end.
+
+(* ---------- phase 4: what can be read off the CLI's printed report, and merge_linters! with ids ---------- *)
+(* harper-cli prints an ariadne report: every character of the source that lies under a label is printed in the
+   label colour, and each label's message hangs from an arrow anchored (ariadne's LabelAttach::Middle) at column
+   (start + end) / 2 of its span.  These are the two things the harness parses back out of the real binary's stdout. *)
+Definition cover_positions (ks : list lint) : list nat :=
+  flat_map (fun l => seq (lstart l) (lend l - lstart l)) ks.
+Definition label_anchor (l : lint) : nat := Nat.div (lstart l + lend l) 2.
+
+(* (count printed, report) : (Some n, None) for --count, (None, None) for "No lints found",
+   (None, Some (coloured character positions, (anchor column, lint id) per label in vector order)) otherwise *)
+Definition run_cli_report (count : bool) (spans : list (nat * nat))
+  : option nat * option (list nat * list (nat * nat)) :=
+  match cli_lint count (number_from 0 (map pair_span spans)) with
+  | CliCount n => (Some n, None)
+  | CliNoLints => (None, None)
+  | CliLabels ls => (None, Some (cover_positions ls, map (fun l => (label_anchor l, lid l)) ls))
+  end.
+
+(* merge_linters!: the sub-linters' outputs numbered consecutively in declaration order; output = kept ids *)
+Fixpoint number_subs (i : nat) (subs : list (list (nat * nat))) : list (list lint) :=
+  match subs with
+  | [] => []
+  | s :: t => number_from i (map pair_span s) :: number_subs (i + length s) t
+  end.
+Definition run_merge_ids (subs : list (list (nat * nat))) : list nat :=
+  map lid (merge_lint (number_subs 0 subs)).
